@@ -199,8 +199,12 @@ func c20Scenario(state string) (Scenario, []Action) {
 		g.AttesterList = []cctptypes.Attester{{Attester: Keys[0].Hex}, {Attester: "abcd"}, {Attester: fmt.Sprintf("0x%x", Keys[1].EthAddr)}, {Attester: "04"}, {Attester: "abc"}}
 		g.SignatureThreshold = &cctptypes.SignatureThreshold{Amount: 1}
 	case "populated":
-		g.PerMessageBurnLimitList = []cctptypes.PerMessageBurnLimit{{Denom: "uusdc", Amount: math.NewInt(1000)}}
-		g.UsedNoncesList = []cctptypes.Nonce{{SourceDomain: 0, Nonce: 5}}
+		// at least three entries in every keyed list (pagination cursors exist for all of them)
+		g.PerMessageBurnLimitList = []cctptypes.PerMessageBurnLimit{{Denom: "uusdc", Amount: math.NewInt(1000)}, {Denom: "uatom", Amount: math.NewInt(0)}, {Denom: "ueurc", Amount: math.NewInt(7)}}
+		g.UsedNoncesList = []cctptypes.Nonce{{SourceDomain: 0, Nonce: 5}, {SourceDomain: 0, Nonce: 6}, {SourceDomain: 1, Nonce: 0}}
+		g.TokenPairList = append(append([]cctptypes.TokenPair{}, g.TokenPairList...),
+			cctptypes.TokenPair{RemoteDomain: 7, RemoteToken: distinct32(0xC7), LocalToken: "uusdc"}, cctptypes.TokenPair{RemoteDomain: 8, RemoteToken: distinct32(0xC8), LocalToken: "uusdc"})
+		g.TokenMessengerList = append(append([]cctptypes.RemoteTokenMessenger{}, g.TokenMessengerList...), cctptypes.RemoteTokenMessenger{DomainId: 7, Address: distinct32(0xB7)})
 	case "odd-pair-empty-denom", "odd-pair-invalid-denom":
 		// registry contents only a genesis file can create: every linked pair names a local token that is not a denom
 		odd := map[string]string{"odd-pair-empty-denom": "", "odd-pair-invalid-denom": "UUSDC! not/a denom"}[state]
